@@ -178,11 +178,9 @@ func (r *replication) replicate(c *conn, req *appendReq) error {
 			}()
 			for {
 				err := r.writeAppendEntriesReq(c, req, true)
-				select {
-				case <-stopCh:
-					return
-				case resultCh <- result{r.nextIndex - 1, err}:
-				}
+				// every written request must be accounted for, even when stopping:
+				// its response has to be drained before the conn goes back to the pool
+				resultCh <- result{r.nextIndex - 1, err}
 				if err != nil {
 					return
 				}
